@@ -144,7 +144,7 @@ func c06Eval(c c06Case) (ok bool, sig, detail string) {
 			return false, "parse-print-fixed-point", fmt.Sprintf("AsLocation(%q) prints as %q; parsing that prints as %q", c.Str, p1, p2)
 		}
 		return true, "", ""
-	case "join", "order":
+	case "join", "order", "push":
 		parts, err := decodeAll(c.Parts)
 		if err != nil {
 			return true, "", err.Error()
@@ -152,9 +152,21 @@ func c06Eval(c c06Case) (ok bool, sig, detail string) {
 		var res gts.Location
 		if p, msg := engine.Safely(func() {
 			cp := append([]gts.Location(nil), parts...)
-			if c.Kind == "join" {
+			switch c.Kind {
+			case "join":
 				res = gts.Join(cp...)
-			} else {
+			case "push":
+				// the exported primitive underneath Join (Repair uses it directly): one Push per part onto one list
+				var ll gts.LocationList
+				for _, p := range cp {
+					ll.Push(p, true)
+				}
+				if list := ll.Slice(); len(list) == 1 {
+					res = list[0]
+				} else {
+					res = gts.Joined(list)
+				}
+			default:
 				res = gts.Order(cp...)
 			}
 		}); p {
@@ -476,6 +488,7 @@ func init() {
 							x /= P
 						}
 						eval(c06Case{Kind: "join", Parts: ps}, k >= 2, 200000+k)
+						eval(c06Case{Kind: "push", Parts: ps}, k >= 2, 200000+k)
 						eval(c06Case{Kind: "order", Parts: ps}, k >= 2, 200000+k)
 						if idx%500009 == 0 && r.WantSample() {
 							r.Sample(c06Case{Kind: "join", Parts: ps})
